@@ -66,6 +66,15 @@ func converterMain() {
 			}
 			chunks = append(chunks, line)
 		}
+		// a slow converter: while the hold file exists the conversion stays "in flight" (scenario op `convhold`)
+		if hold := os.Getenv("VERIF_CONV_HOLD"); hold != "" {
+			for {
+				if _, err := os.Stat(hold); err != nil {
+					break
+				}
+				time.Sleep(3 * time.Millisecond)
+			}
+		}
 		for _, c := range chunks {
 			var m map[string]interface{}
 			if err := json.Unmarshal(c, &m); err != nil {
@@ -435,6 +444,8 @@ type harness struct {
 	removedAt    int
 	convInFlight bool // a converter job is in flight: what it cached is not "current data" for the tags yet
 	detached     map[string]bool // converter -> detached from its last tag and not attached (or used on demand) since
+	convHeld     bool            // conversions are held in flight (op `convhold on`): the converter job cannot reach its gate
+	heldJob      bool            // a hold was on at some time while the converter job now in flight was running
 }
 
 type stateFileCopy struct {
@@ -470,6 +481,7 @@ func (h *harness) dirs() (string, string, string, string, string) {
 }
 
 func (h *harness) start() error {
+	os.Setenv("VERIF_CONV_HOLD", filepath.Join(h.base, "convhold"))
 	p, i, s, st, c := h.dirs()
 	m, err := manager.New(p, i, s, st, c, "")
 	if err != nil {
@@ -502,7 +514,7 @@ func (h *harness) sync() (manager.VerifState, error) {
 		st := h.mgr.VerifDump()
 		ok := true
 		for job, r := range running(st) {
-			if r && !h.g.at(job) {
+			if r && !h.g.at(job) && !(job == "convert" && h.convHeld) {
 				ok = false
 			}
 		}
@@ -719,6 +731,11 @@ func (h *harness) checkOracles(st manager.VerifState) {
 	// --- C06 (service state): decided (id < next, not uncertain) => matches == evaluation of the definition
 	h.world = byID
 	h.convInFlight = st.Convert
+	if !st.Convert {
+		h.heldJob = false
+	} else if h.convHeld {
+		h.heldJob = true
+	}
 	for _, t := range st.Tags {
 		unc := map[uint]bool{}
 		for _, u := range t.Uncertain {
@@ -958,7 +975,13 @@ func (h *harness) checkOracles(st manager.VerifState) {
 		}
 	}
 	// --- C16: cached converter output belongs to the current data
+	//     (output that a converter job stored for a stream that changed while the conversion was in flight is dropped
+	//     when the job's completion is delivered; between the store and that delivery — in real runs an instant, here
+	//     as long as the job stays parked — it is still there: not judged while such a job is parked)
 	for _, cn := range st.Converters {
+		if h.heldJob {
+			break
+		}
 		for _, id := range st.Cached[cn] {
 			ft := byID[id]
 			if ft == nil {
@@ -1168,6 +1191,18 @@ func (h *harness) step(line string) (event, error) {
 			return nil, err
 		}
 		ev["name"] = p.name
+	case "convhold":
+		// conversions of the deterministic converter stay in flight while held (oracle-only stage of C16: the
+		// service-loop model converts when the job starts)
+		hold := filepath.Join(h.base, "convhold")
+		if len(f) > 1 && f[1] == "on" {
+			os.WriteFile(hold, nil, 0644)
+			h.convHeld = true
+		} else {
+			os.Remove(hold)
+			h.convHeld = false
+		}
+		ev["noop"] = true
 	case "badpcap":
 		// a file in the capture directory that cannot be parsed as a capture
 		if h.pcaps[f[1]] != nil {
@@ -1200,7 +1235,7 @@ func (h *harness) step(line string) (event, error) {
 			// release one of the parked jobs, chosen by the scenario's number
 			waiting := []string{}
 			for _, k := range []string{"import", "tag", "convert", "merge"} {
-				if h.g.at(k) {
+				if h.g.at(k) && !(k == "convert" && h.convHeld) {
 					waiting = append(waiting, k)
 				}
 			}
@@ -1213,7 +1248,9 @@ func (h *harness) step(line string) (event, error) {
 			}
 		}
 		ev["job"] = job
-		if !h.g.at(job) {
+		if !h.g.at(job) || (job == "convert" && h.convHeld) {
+			// (while conversions are held a completed converter job is not delivered either: its successor could not
+			// reach the gate and the harness could not tell when the completion has run)
 			ev["noop"] = true
 			break
 		}
@@ -1588,6 +1625,14 @@ func (h *harness) runScenario(in io.Reader, out io.Writer) error {
 // checks quiescence (C09). The number of releases is bounded: background work must settle.
 func (h *harness) settle() (event, error) {
 	ev := event{"op": "settle"}
+	if h.convHeld {
+		// conversions held in flight are let go: settling means every job runs to its end
+		os.Remove(filepath.Join(h.base, "convhold"))
+		h.convHeld = false
+		if st, err := h.sync(); err == nil {
+			h.prev = st
+		}
+	}
 	rels := []string{}
 	for n := 0; ; n++ {
 		st := h.prev
@@ -1802,12 +1847,14 @@ func (g *genWorld) genDef(self string, wild bool) (string, *genTag) {
 
 var genCrash = false
 var genOnDemand = false
+var genSlowConv = false
 
 func gen(seed uint64, n int, w io.Writer) {
 	r := lib.NewRNG(seed)
 	g := &genWorld{r: r, tags: map[string]*genTag{}, flows: map[int]bool{}, lastDef: map[string]string{}}
 	npcap := 0
 	clock := 0
+	slowLeft := 0
 	pending := []string{}
 	mkpcap := func() {
 		name := fmt.Sprintf("p%02d.pcap", npcap)
@@ -1993,6 +2040,16 @@ func gen(seed uint64, n int, w io.Writer) {
 				fmt.Fprintf(w, "crashcheck 100\n")
 			}
 		}
+		if genSlowConv && r.Chance(1, 6) {
+			// conversions are held in flight across the next few operations (a slow converter), then let go
+			fmt.Fprintf(w, "convhold on\n")
+			slowLeft = 2 + r.Intn(4)
+		} else if genSlowConv && slowLeft > 0 {
+			slowLeft--
+			if slowLeft == 0 {
+				fmt.Fprintf(w, "convhold off\n")
+			}
+		}
 		if genOnDemand && r.Chance(1, 4) {
 			fmt.Fprintf(w, "vdata %d conv1\n", streamID())
 		}
@@ -2135,12 +2192,14 @@ func main() {
 	verbose := fs.Bool("v", false, "keep the service's log output")
 	crash := fs.Bool("crash", false, "gen: insert crashcheck ops")
 	ondemand := fs.Bool("ondemand", false, "gen: insert on-demand conversions through a view (vdata)")
+	slowconv := fs.Bool("slowconv", false, "gen: hold conversions in flight across operations (convhold on/off)")
 	free := fs.Int("free", -1, "gen: K gated ops, then `free` and -n free-running ops (property C20)")
 	fs.Parse(os.Args[2:])
 	switch os.Args[1] {
 	case "gen":
 		genCrash = *crash
 		genOnDemand = *ondemand
+		genSlowConv = *slowconv
 		w := bufio.NewWriter(os.Stdout)
 		if *free >= 0 {
 			genFree(*seed, *n, *free, w)
